@@ -167,6 +167,7 @@ fn futex_wake(w: &AtomicU32) {
     }
 }
 
+pub static TRACE: AtomicU32 = AtomicU32::new(0);
 pub static SPIN_LIMIT: AtomicU32 = AtomicU32::new(4000);
 
 fn wait_go(i: usize) {
@@ -301,6 +302,8 @@ pub struct Exec {
     pub interleaved: bool,
     /// events the default access mapping treats as racy-checkable
     pub race_check: bool,
+    /// report locks / yields / blocking reads inside handler frames (C03)
+    pub handler_discipline: bool,
     pub user: Option<Box<dyn Any>>,
 }
 
@@ -339,6 +342,20 @@ fn progress() -> Option<&'static Progress> {
 /// Report a violation from anywhere in harness/engine code running under the token. On a model
 /// thread the execution is abandoned (the thread parks forever; the controller retires the others);
 /// on the controller it unwinds to `run_one`.
+/// Like `fail`, but usable from destructors: on the controller, while already unwinding, the
+/// violation is only recorded.
+pub fn fail_soft(msg: String) {
+    let t = tid();
+    if (t == 0 || t == NONE) && std::thread::panicking() {
+        let e = exec();
+        if e.violation.is_none() {
+            e.violation = Some(msg);
+        }
+        return;
+    }
+    fail(msg)
+}
+
 pub fn fail(msg: String) -> ! {
     let _g = EngineGuard::enter();
     let e = exec();
@@ -397,6 +414,7 @@ impl Exec {
             stale_taken: 0,
             interleaved: false,
             race_check: true,
+            handler_discipline: true,
             user: None,
         }
     }
@@ -480,12 +498,28 @@ impl Exec {
             own,
             cf,
         };
+        if TRACE.load(Ordering::Relaxed) != 0 {
+            eprintln!("TRACE step={} T{} d{} {} {:#x} {:#x} pending={:?}", self.steps, t as i64, depth, tag, a, b, self.threads.iter().map(|x| x.pending).collect::<Vec<_>>());
+        }
+        if depth > 0 && self.handler_discipline {
+            let bad = match tag {
+                "mutex_lock" => Some("acquires a lock"),
+                "yield" | "spin_hint" => Some("yields / spins waiting for another thread"),
+                "blocking_read" => Some("performs a blocking read"),
+                _ => None,
+            };
+            if let Some(b) = bad {
+                self.log.push(ev);
+                fail(format!("C03: code running inside a signal handler frame {}", b));
+            }
+        }
         if let Some(mut m) = self.monitor.take() {
             let r = m.on_event(self, &ev);
             self.monitor = Some(m);
             if let Err(msg) = r {
                 self.log.push(ev);
-                fail(msg);
+                fail_soft(msg);
+                return;
             }
         }
         self.log.push(ev);
@@ -534,7 +568,7 @@ impl Exec {
         self.tick(t);
         if let Some(m) = race {
             if self.race_check {
-                fail(m);
+                fail_soft(m);
             }
         }
     }
@@ -578,22 +612,45 @@ fn mask(width: u8) -> u64 {
 // Scheduling
 
 fn do_raise(t: usize, sig: i32) {
+    do_raise_with(t, sig, None)
+}
+
+fn do_raise_with(t: usize, sig: i32, value: Option<usize>) {
     let e = exec();
+    // The interrupted operation stays pending while the handler frame runs.
+    let saved_pending = e.threads[t].pending;
+    let saved_yielded = e.threads[t].yielded;
+    let saved_site = e.threads[t].last_site;
+    e.threads[t].yielded = false;
     e.threads[t].active_sigs.push(sig);
     e.signals_delivered += 1;
-    e.push_ev("deliver_begin", sig as u64, 0);
+    e.push_ev("deliver_begin", sig as u64, value.unwrap_or(0) as u64);
     let steps0 = e.threads[t].steps;
     let sw0 = e.switches;
     DEPTH.with(|d| d.set(d.get() + 1));
     let prev = IN_ENGINE.with(|c| c.replace(false));
     unsafe {
-        libc::raise(sig);
+        match value {
+            None => {
+                libc::raise(sig);
+            }
+            Some(v) => {
+                let sv = libc::sigval { sival_ptr: v as *mut libc::c_void };
+                extern "C" {
+                    fn pthread_sigqueue(t: libc::pthread_t, sig: libc::c_int, v: libc::sigval) -> libc::c_int;
+                }
+                pthread_sigqueue(libc::pthread_self(), sig, sv);
+            }
+        }
     }
     IN_ENGINE.with(|c| c.set(prev));
     DEPTH.with(|d| d.set(d.get() - 1));
     check_alloc_flag();
     let e = exec();
     e.threads[t].active_sigs.pop();
+    e.threads[t].pending = saved_pending;
+    e.threads[t].yielded = saved_yielded;
+    e.threads[t].last_site = saved_site;
     let own = e.threads[t].steps - steps0;
     let solo = (e.switches == sw0) as u64;
     e.push_ev("deliver_end", sig as u64, (own << 1) | solo);
@@ -1167,6 +1224,9 @@ static HOOKS: shim::Hooks = shim::Hooks {
 };
 
 pub fn install_hooks() {
+    if std::env::var("VERIF_TRACE").is_ok() {
+        TRACE.store(1, Ordering::Relaxed);
+    }
     shim::install(&HOOKS);
 }
 
@@ -1216,26 +1276,7 @@ pub fn raise_value(sig: i32, value: usize) {
     assert!(t != NONE);
     hook_sched_point("raise", sig as u64);
     let _g = EngineGuard::enter();
-    let e = exec();
-    e.threads[t].active_sigs.push(sig);
-    e.signals_delivered += 1;
-    e.push_ev("deliver_begin", sig as u64, value as u64);
-    DEPTH.with(|d| d.set(d.get() + 1));
-    let prev = IN_ENGINE.with(|c| c.replace(false));
-    unsafe {
-        let v = libc::sigval {
-            sival_ptr: value as *mut libc::c_void,
-        };
-        extern "C" {
-            fn pthread_sigqueue(t: libc::pthread_t, sig: libc::c_int, v: libc::sigval) -> libc::c_int;
-        }
-        pthread_sigqueue(libc::pthread_self(), sig, v);
-    }
-    IN_ENGINE.with(|c| c.set(prev));
-    DEPTH.with(|d| d.set(d.get() - 1));
-    let e = exec();
-    e.threads[t].active_sigs.pop();
-    e.push_ev("deliver_end", sig as u64, value as u64);
+    do_raise_with(t, sig, Some(value));
 }
 
 /// Block until no other thread can move (lowest-priority thread, e.g. the closer).
